@@ -100,6 +100,7 @@ def reference_render(payload):
     """Runs in a pristine process.  payload: {"obj", "enums", "conf", "mode"} ->
     {"text": ...} or {"error": "Type: message"}"""
     from ak import color as akcolor
+    ro.REFERENCE_PROCESS = True
     try:
         confspec = payload["conf"]
         conf = akcolor.ColorsConfig(confspec["init"], no_color=bool(confspec.get("no_color")))
